@@ -17,5 +17,5 @@ def contract(relpath, qualname, **kw):
 
 
 def load_all():
-    from . import t1_slices, assumed_numpy, t2_arrays, t1_missing_windows, t2_equals, t2_bus, t3_growonly, t2_sort, t2_windows, t2_locmap, t3_splice, t2_setops, t2_align, t3_offsets, t3_indexgo, t2_reshape, t2_overlay, t2_select, t2_indexitems, t2_logical, t2_batch, t2_assign, t2_ihinit, t2_level, t2_frameassign   # noqa
+    from . import t1_slices, assumed_numpy, t2_arrays, t1_missing_windows, t2_equals, t2_bus, t3_growonly, t2_sort, t2_windows, t2_locmap, t3_splice, t2_setops, t2_align, t3_offsets, t3_indexgo, t2_reshape, t2_overlay, t2_select, t2_indexitems, t2_logical, t2_batch, t2_assign, t2_ihinit, t2_level, t2_frameassign, t2_indexmany   # noqa
     return CONTRACTS, RECORDS
